@@ -667,3 +667,14 @@ Proof. vm_compute. reflexivity. Qed.
 Lemma rules_target_bound_definitions :
   forallb (fun r => negb (String.eqb (r_target r) "Proto") && negb (String.eqb (r_target r) "Definition")) lint_rules = true.
 Proof. vm_compute. reflexivity. Qed.
+
+(* the regular expressions of utils.snake_case that Lint.sub_b1 / sub2 / take_us / ... model *)
+Lemma naming_regexes_pinned :
+  re_camel_b1 = "(.)([A-Z][a-z]+)"%string /\ re_camel_b2 = "([a-z0-9])([A-Z])"%string /\
+  re_alpha_to_digit = "([A-Za-z])([0-9])"%string /\ re_digit_to_alpha = "([0-9])([A-Za-z])"%string /\
+  re_multi_us = "__+"%string /\ re_upper_or_digits = "^[A-Z0-9]+$"%string /\
+  re_mixed_case = "[A-Z].*[a-z]|[a-z].*[A-Z]"%string /\ re_leading_us = "^_+"%string /\
+  re_trailing_us = "_+$"%string /\
+  snakecase_regex_names = ["re_alpha_to_digit"; "re_camel_b1"; "re_camel_b2"; "re_digit_to_alpha"; "re_leading_us";
+                           "re_mixed_case"; "re_multi_us"; "re_trailing_us"; "re_upper_or_digits"]%string.
+Proof. repeat split; reflexivity. Qed.
